@@ -43,6 +43,13 @@ func c13Gen(rng *rand.Rand, conf string, idx int) any {
 			w.Orig = append(w.Orig, MOp{Kind: "ann", Key: k, Act: "set", Val: g.val()})
 		}
 	}
+	// the runtime's spec need not list mounts parents-first
+	rng.Shuffle(len(w.Orig), func(i, j int) { w.Orig[i], w.Orig[j] = w.Orig[j], w.Orig[i] })
+	for _, extra := range []string{"/m2/a", "/m2/a/b"} {
+		if rng.Intn(3) == 0 {
+			w.Orig = append([]MOp{{Kind: "mount", Key: extra, Act: "set", Val: g.val()}}, w.Orig...)
+		}
+	}
 	items := append([]itemSpec(nil), adjustItems...)
 	for _, k := range extraAnn {
 		items = append(items, itemSpec{"ann", k})
